@@ -245,6 +245,30 @@ def _models():
     return st.one_of(gen.model_convection(), gen.model_burgers(), gen.model_shallowwater(), gen.model_euler1d(), gen.model_euler1d(), gen.model_nozzle(varying=True))
 
 
+def _signed(lo, hi):
+    return st.builds(lambda s, m: s * m, st.sampled_from([1.0, -1.0]), gen.f(lo, hi))
+
+
+def _cfg_implicit_smooth(md, nmax, types, implicit):
+    name = md["name"]
+    fmd = md if name != "nozzle" else dict(name="euler1d")
+    mach = st.one_of(_signed(0.15, 0.85), _signed(0.15, 0.85), _signed(1.15, 2.0))
+    wig = gen.f(0, 0.05 / 3.0)
+    mprof = st.one_of(gen.prof_fourier(mach, wig, kmax=2), gen.prof_const(mach))
+    ln = gen.prof_smooth(-0.5, 0.5, 0.05)
+    if name == "burgers":
+        state = st.builds(lambda m, w: dict(u=dict(k="fourier", mean=m, modes=w)), _signed(0.5, 2.0), st.lists(st.tuples(gen.f(0, 0.1), st.integers(1, 2), gen.f(0, 1)).map(list), min_size=1, max_size=3))
+    elif name == "shallowwater":
+        state = st.builds(lambda h, m: dict(lnh=h, froude=m), ln, mprof)
+    else:
+        state = st.builds(lambda r, p, m: dict(lnrho=r, lnp=p, mach=m), ln, ln, mprof)
+    num = st.one_of(gen.num_first(), gen.num_first(), gen.num_unlimited())
+    return st.builds(lambda me, nu, s, fl, tl, tr, ic, ns, src, dp: dict(
+        model=md, mesh=me, num=nu, state=s, flux=fl, bcL=tl, bcR=tr, integ=ic[0], cfl=ic[1], nsteps=ns, source=src, dprim=dp),
+        gen.mesh_any(2, nmax), num, state, st.sampled_from(cases.flux_names(fmd)), st.sampled_from(types), st.sampled_from(types), implicit, st.integers(1, 2), _src(md),
+        st.lists(gen.f(-0.3, 0.3), min_size=3, max_size=3))
+
+
 def _cfg(md, tier, units):
     nmax = 10 if tier == "quick" else 16
     fmd = md if md["name"] != "nozzle" else dict(name="euler1d")
@@ -257,8 +281,12 @@ def _cfg(md, tier, units):
     base = st.builds(lambda me, rough, num_r, num_s, s_r, s_s, fl, tl, tr, ic, ns, src, dp: dict(
         model=md, mesh=me, num=(num_r if rough else num_s), state=(s_r if rough else s_s), flux=fl, bcL=tl, bcR=tr, integ=ic[0], cfl=ic[1], nsteps=ns, source=src, dprim=dp),
         gen.mesh_any(2, nmax), st.booleans(), gen.num_robust(), gen.num_any(), gen.state_for(md, True, lnrange=0.7, machmax=1.5), gen.state_for(md, False, lnrange=0.5, machmax=1.2, smooth_amp=0.05),
-        st.sampled_from(cases.flux_names(fmd)), st.sampled_from(types), st.sampled_from(types), st.one_of(explicit, explicit, explicit, implicit), st.integers(1, 6), _src(md),
+        st.sampled_from(cases.flux_names(fmd)), st.sampled_from(types), st.sampled_from(types), (st.one_of(explicit, explicit, explicit, implicit) if lin else explicit), st.integers(1, 6), _src(md),
         st.lists(gen.f(-0.3, 0.3), min_size=3, max_size=3))
+    if not lin:
+        # implicit integrators use a one-sided finite-difference Jacobian: the relations hold (to the truncation error) only where the operator is
+        # differentiable, so these cases are CONSTRUCTED away from u = 0 and from sonic points, without slope limiters, rather than drawn and skipped
+        base = st.one_of(base, base, base, _cfg_implicit_smooth(md, nmax, types, implicit))
     if not units:
         return base
     return st.builds(lambda b, ka, kb, kl: dict(b, ka=ka, kb=kb, kl=kl), base, kk, st.one_of(kk, st.just(0)), kk)
